@@ -362,4 +362,224 @@ theorem accDone_stepW (c : Cfg) (s s' : State) (w0 : Nat) (hw0 : w0 < c.n) (h : 
   split at hs <;> (try split at hs) <;> simp at hs <;> subst hs <;> dsimp only <;> (try simp only [cHolds_wakeC, inBlock_wakeC, termPhase_wakeC, isCreate_wakeC, isBcast_wakeC, wakeC_create, wakeC_join, wakeC_unlockB, wakeC_condWait, wakeC_lockA, wakeC_lockT]) <;> simp_all <;> grind
 
 
+theorem wst_run_of (x : WSt) (h1 : ¬ x = .wait) (h2 : ¬ x = .term) : x = .run := by
+  cases x <;> simp_all
+
+theorem condRun_stepC (c : Cfg) (s s' : State) (h : Inv c s) (hs : stepC c s = some s') :
+    c.repaired = true → s'.cpc = .condWait → ∃ j, j < c.active s'.blk ∧ s'.st j = .run := by
+  have h_noTerm := h.noTerm
+  intro hr
+  unfold stepC at hs
+  split at hs <;> (try split at hs) <;> simp at hs <;> subst hs <;> simp only [loopHead] <;> (repeat' split) <;>
+    simp_all [allWait_iff]
+  all_goals
+    rename_i hex
+    obtain ⟨j, hj1, hj2⟩ := hex
+    exact ⟨j, hj1, wst_run_of _ hj2 (h_noTerm j)⟩
+
+theorem waitRun_stepC (c : Cfg) (s s' : State) (h : Inv c s) (hs : stepC c s = some s') :
+    c.repaired = true → s'.cpc = .waiting →
+      (∃ j, j < c.active s'.blk ∧ s'.st j = .run) ∨ (∃ w, s'.wpc w = .bcast) := by
+  have h_condRun := h.condRun
+  intro hr
+  unfold stepC at hs
+  split at hs <;> (try split at hs) <;> simp at hs <;> subst hs <;> simp only [loopHead] <;> (repeat' split) <;>
+    simp_all [allWait_iff]
+
+theorem flat_zero (less : Nat → Nat → Bool) (m : Nat) : flat less m 0 = (none, none) := rfl
+
+theorem accLoop_stepC (c : Cfg) (hn : 0 < c.n) (s s' : State) (h : Inv c s) (hs : stepC c s = some s') :
+    (s'.cpc = .lockA ∨ inBlock s'.cpc = true) →
+      (s'.base, s'.chosen) = flat c.less c.m (s'.blk * c.n) ∧ s'.chosen = none ∧ s'.blk * c.n < c.m := by
+  have h_accLoop := h.accLoop
+  have h_accCreate := h.accCreate
+  have h_vals := h.blockVals
+  have h_all := h.unlockBAll
+  have hb := lt_blocks_iff c hn
+  unfold stepC at hs
+  split at hs <;> (try split at hs) <;> simp at hs <;> subst hs <;> simp only [loopHead] <;> (repeat' split) <;>
+    simp_all [allWait_iff, flat_zero]
+  all_goals (try (obtain ⟨h1, h2, h3⟩ := h_accLoop; rw [h2] at h1; exact h1))
+  obtain ⟨h1, h2, h3⟩ := h_accLoop
+  rename_i hh
+  obtain ⟨hlt, hnone⟩ := hh
+  rw [h2] at h1
+  have hact : c.active s.blk = c.n := by
+    unfold Cfg.active; rw [Nat.succ_mul] at hlt; omega
+  have hsc := scan_flat c s.val s.blk (fun j hj => (h_vals j hj).2)
+  rw [← h1, hact] at hsc
+  rw [Nat.succ_mul, ← hsc]
+  exact Prod.ext rfl hnone.symm
+
+theorem accDone_stepC (c : Cfg) (hn : 0 < c.n) (s s' : State) (h : Inv c s) (hs : stepC c s = some s') :
+    (s'.cpc = .lockT ∨ termPhase s'.cpc = true) → (s'.base, s'.chosen) = flat c.less c.m c.m := by
+  have h_accLoop := h.accLoop
+  have h_accDone := h.accDone
+  have h_accCreate := h.accCreate
+  have h_vals := h.blockVals
+  have h_all := h.unlockBAll
+  have hb := lt_blocks_iff c hn
+  unfold stepC at hs
+  split at hs <;> (try split at hs) <;> simp at hs <;> subst hs <;> simp only [loopHead] <;> (repeat' split) <;>
+    simp_all [allWait_iff, flat_zero]
+  obtain ⟨h1, h2, h3⟩ := h_accLoop
+  rename_i hh
+  rw [h2] at h1
+  have hsc := scan_flat c s.val s.blk (fun j hj => (h_vals j hj).2)
+  rw [← h1] at hsc
+  show scan c s.val s.blk (s.base, none) = _
+  by_cases hlt : (s.blk + 1) * c.n < c.m
+  · have hsome := hh hlt
+    rw [hsc] at hsome ⊢
+    have hle : s.blk * c.n + c.active s.blk ≤ c.m := by unfold Cfg.active; omega
+    have hst := flat_stable c.less c.m (s.blk * c.n + c.active s.blk)
+      (by cases hx : (flat c.less c.m (s.blk * c.n + c.active s.blk)).2 <;> simp_all)
+      (c.m - (s.blk * c.n + c.active s.blk))
+    rw [Nat.add_sub_cancel' hle] at hst
+    exact hst.symm
+  · rw [hsc]
+    have : s.blk * c.n + c.active s.blk = c.m := by
+      unfold Cfg.active; rw [Nat.succ_mul] at hlt; omega
+    rw [this]
+theorem own0_spur (c : Cfg) (s s' : State) (t : Nat) (h : Inv c s) (hs : spur? c s t = some s') :
+    s'.owner = some 0 ↔ cHolds s'.cpc = true := by
+  have h_own0 := h.own0
+  unfold spur? at hs
+  split at hs <;> split at hs <;> simp at hs <;> subst hs <;> simp_all <;> grind
+
+theorem ownW_spur (c : Cfg) (s s' : State) (t : Nat) (h : Inv c s) (hs : spur? c s t = some s') :
+    ∀ w, s'.owner = some (w+1) ↔ wHolds (s'.wpc w) = true := by
+  have h_ownW := h.ownW
+  unfold spur? at hs
+  split at hs <;> split at hs <;> simp at hs <;> subst hs <;> simp_all <;> grind
+
+theorem idleOut_spur (c : Cfg) (s s' : State) (t : Nat) (h : Inv c s) (hs : spur? c s t = some s') :
+    ∀ w, c.n ≤ w → s'.wpc w = .idle := by
+  have h_idleOut := h.idleOut
+  unfold spur? at hs
+  split at hs <;> split at hs <;> simp at hs <;> subst hs <;> simp_all <;> grind
+
+theorem created_spur (c : Cfg) (s s' : State) (t : Nat) (h : Inv c s) (hs : spur? c s t = some s') :
+    ∀ k, s'.cpc = .create k → k < c.n ∧ (∀ w, w < k → s'.wpc w ≠ .idle) ∧ (∀ w, k ≤ w → s'.wpc w = .idle) := by
+  have h_created := h.created
+  unfold spur? at hs
+  split at hs <;> split at hs <;> simp at hs <;> subst hs <;> simp_all <;> grind
+
+theorem createdAll_spur (c : Cfg) (s s' : State) (t : Nat) (h : Inv c s) (hs : spur? c s t = some s') :
+    isCreate s'.cpc = false → ∀ w, w < c.n → s'.wpc w ≠ .idle := by
+  have h_createdAll := h.createdAll
+  unfold spur? at hs
+  split at hs <;> split at hs <;> simp at hs <;> subst hs <;> simp_all <;> grind
+
+theorem joinLt_spur (c : Cfg) (s s' : State) (t : Nat) (h : Inv c s) (hs : spur? c s t = some s') :
+    ∀ k, s'.cpc = .join k → k < c.n := by
+  have h_joinLt := h.joinLt
+  unfold spur? at hs
+  split at hs <;> split at hs <;> simp at hs <;> subst hs <;> simp_all <;> grind
+
+theorem waitSt_spur (c : Cfg) (s s' : State) (t : Nat) (h : Inv c s) (hs : spur? c s t = some s') :
+    ∀ w, s'.wpc w = .waiting → s'.st w = .wait ∨ isBcast s'.cpc = true := by
+  have h_waitSt := h.waitSt
+  unfold spur? at hs
+  split at hs <;> split at hs <;> simp at hs <;> subst hs <;> simp_all <;> grind
+
+theorem noTerm_spur (c : Cfg) (s s' : State) (t : Nat) (h : Inv c s) (hs : spur? c s t = some s') :
+    termPhase s'.cpc = false → ∀ w, s'.st w ≠ .term := by
+  have h_noTerm := h.noTerm
+  unfold spur? at hs
+  split at hs <;> split at hs <;> simp at hs <;> subst hs <;> simp_all <;> grind
+
+theorem allTerm_spur (c : Cfg) (s s' : State) (t : Nat) (h : Inv c s) (hs : spur? c s t = some s') :
+    termPhase s'.cpc = true → ∀ w, w < c.n → s'.st w = .term := by
+  have h_allTerm := h.allTerm
+  unfold spur? at hs
+  split at hs <;> split at hs <;> simp at hs <;> subst hs <;> simp_all <;> grind
+
+theorem termPcs_spur (c : Cfg) (s s' : State) (t : Nat) (h : Inv c s) (hs : spur? c s t = some s') :
+    termPhase s'.cpc = true → ∀ w, s'.wpc w ≠ .lock2 ∧ s'.wpc w ≠ .bcast ∧ s'.wpc w ≠ .unlock2 := by
+  have h_termPcs := h.termPcs
+  unfold spur? at hs
+  split at hs <;> split at hs <;> simp at hs <;> subst hs <;> simp_all <;> grind
+
+theorem exitTerm_spur (c : Cfg) (s s' : State) (t : Nat) (h : Inv c s) (hs : spur? c s t = some s') :
+    ∀ w, (s'.wpc w = .exit ∨ s'.wpc w = .done) → termPhase s'.cpc = true := by
+  have h_exitTerm := h.exitTerm
+  unfold spur? at hs
+  split at hs <;> split at hs <;> simp at hs <;> subst hs <;> simp_all <;> grind
+
+theorem runBlock_spur (c : Cfg) (s s' : State) (t : Nat) (h : Inv c s) (hs : spur? c s t = some s') :
+    ∀ w, s'.st w = .run → inBlock s'.cpc = true ∧ w < c.active s'.blk := by
+  have h_runBlock := h.runBlock
+  unfold spur? at hs
+  split at hs <;> split at hs <;> simp at hs <;> subst hs <;> simp_all <;> grind
+
+theorem lock2Run_spur (c : Cfg) (s s' : State) (t : Nat) (h : Inv c s) (hs : spur? c s t = some s') :
+    ∀ w, s'.wpc w = .lock2 → s'.st w = .run := by
+  have h_lock2Run := h.lock2Run
+  unfold spur? at hs
+  split at hs <;> split at hs <;> simp at hs <;> subst hs <;> simp_all <;> grind
+
+theorem blockVals_spur (c : Cfg) (s s' : State) (t : Nat) (h : Inv c s) (hs : spur? c s t = some s') :
+    inBlock s'.cpc = true → ∀ j, j < c.active s'.blk → s'.aidx j = s'.blk * c.n + j ∧ (s'.st j = .run ∨ s'.val j = some (s'.blk * c.n + j)) := by
+  have h_blockVals := h.blockVals
+  unfold spur? at hs
+  split at hs <;> split at hs <;> simp at hs <;> subst hs <;> simp_all <;> grind
+
+theorem unlockBAll_spur (c : Cfg) (s s' : State) (t : Nat) (h : Inv c s) (hs : spur? c s t = some s') :
+    s'.cpc = .unlockB → ∀ j, j < c.active s'.blk → s'.st j = .wait := by
+  have h_unlockBAll := h.unlockBAll
+  unfold spur? at hs
+  split at hs <;> split at hs <;> simp at hs <;> subst hs <;> simp_all <;> grind
+
+theorem condRun_spur (c : Cfg) (s s' : State) (t : Nat) (h : Inv c s) (hs : spur? c s t = some s') :
+    c.repaired = true → s'.cpc = .condWait → ∃ j, j < c.active s'.blk ∧ s'.st j = .run := by
+  have h_condRun := h.condRun
+  unfold spur? at hs
+  split at hs <;> split at hs <;> simp at hs <;> subst hs <;> simp_all <;> grind
+
+theorem waitRun_spur (c : Cfg) (s s' : State) (t : Nat) (h : Inv c s) (hs : spur? c s t = some s') :
+    c.repaired = true → s'.cpc = .waiting → (∃ j, j < c.active s'.blk ∧ s'.st j = .run) ∨ (∃ w, s'.wpc w = .bcast) := by
+  have h_waitRun := h.waitRun
+  unfold spur? at hs
+  split at hs <;> split at hs <;> simp at hs <;> subst hs <;> simp_all <;> grind
+
+theorem accCreate_spur (c : Cfg) (s s' : State) (t : Nat) (h : Inv c s) (hs : spur? c s t = some s') :
+    isCreate s'.cpc = true → s'.base = none ∧ s'.chosen = none ∧ s'.blk = 0 := by
+  have h_accCreate := h.accCreate
+  unfold spur? at hs
+  split at hs <;> split at hs <;> simp at hs <;> subst hs <;> simp_all <;> grind
+
+theorem accLoop_spur (c : Cfg) (s s' : State) (t : Nat) (h : Inv c s) (hs : spur? c s t = some s') :
+    (s'.cpc = .lockA ∨ inBlock s'.cpc = true) → (s'.base, s'.chosen) = flat c.less c.m (s'.blk * c.n) ∧ s'.chosen = none ∧ s'.blk * c.n < c.m := by
+  have h_accLoop := h.accLoop
+  unfold spur? at hs
+  split at hs <;> split at hs <;> simp at hs <;> subst hs <;> simp_all <;> grind
+
+theorem accDone_spur (c : Cfg) (s s' : State) (t : Nat) (h : Inv c s) (hs : spur? c s t = some s') :
+    (s'.cpc = .lockT ∨ termPhase s'.cpc = true) → (s'.base, s'.chosen) = flat c.less c.m c.m := by
+  have h_accDone := h.accDone
+  unfold spur? at hs
+  split at hs <;> split at hs <;> simp at hs <;> subst hs <;> simp_all <;> grind
+
+theorem inv_init (c : Cfg) (hn : 0 < c.n) : Inv c (init c) := by
+  constructor <;> simp [init, cHolds, wHolds, inBlock, termPhase, isCreate, isBcast, hn]
+
+theorem inv_stepC (c : Cfg) (hn : 0 < c.n) (s s' : State) (h : Inv c s) (hs : stepC c s = some s') : Inv c s' :=
+  ⟨own0_stepC c hn s s' h hs, ownW_stepC c hn s s' h hs, idleOut_stepC c hn s s' h hs, created_stepC c hn s s' h hs, createdAll_stepC c hn s s' h hs, joinLt_stepC c hn s s' h hs, waitSt_stepC c hn s s' h hs, noTerm_stepC c hn s s' h hs, allTerm_stepC c hn s s' h hs, termPcs_stepC c hn s s' h hs, exitTerm_stepC c hn s s' h hs, runBlock_stepC c hn s s' h hs, lock2Run_stepC c hn s s' h hs, blockVals_stepC c hn s s' h hs, unlockBAll_stepC c hn s s' h hs, condRun_stepC c s s' h hs, waitRun_stepC c s s' h hs, accCreate_stepC c hn s s' h hs, accLoop_stepC c hn s s' h hs, accDone_stepC c hn s s' h hs⟩
+
+theorem inv_stepW (c : Cfg) (s s' : State) (w : Nat) (hw : w < c.n) (h : Inv c s) (hs : stepW s w = some s') : Inv c s' :=
+  ⟨own0_stepW c s s' w hw h hs, ownW_stepW c s s' w hw h hs, idleOut_stepW c s s' w hw h hs, created_stepW c s s' w hw h hs, createdAll_stepW c s s' w hw h hs, joinLt_stepW c s s' w hw h hs, waitSt_stepW c s s' w hw h hs, noTerm_stepW c s s' w hw h hs, allTerm_stepW c s s' w hw h hs, termPcs_stepW c s s' w hw h hs, exitTerm_stepW c s s' w hw h hs, runBlock_stepW c s s' w hw h hs, lock2Run_stepW c s s' w hw h hs, blockVals_stepW c s s' w hw h hs, unlockBAll_stepW c s s' w hw h hs, condRun_stepW c s s' w hw h hs, waitRun_stepW c s s' w hw h hs, accCreate_stepW c s s' w hw h hs, accLoop_stepW c s s' w hw h hs, accDone_stepW c s s' w hw h hs⟩
+
+theorem inv_spur (c : Cfg) (s s' : State) (t : Nat) (h : Inv c s) (hs : spur? c s t = some s') : Inv c s' :=
+  ⟨own0_spur c s s' t h hs, ownW_spur c s s' t h hs, idleOut_spur c s s' t h hs, created_spur c s s' t h hs, createdAll_spur c s s' t h hs, joinLt_spur c s s' t h hs, waitSt_spur c s s' t h hs, noTerm_spur c s s' t h hs, allTerm_spur c s s' t h hs, termPcs_spur c s s' t h hs, exitTerm_spur c s s' t h hs, runBlock_spur c s s' t h hs, lock2Run_spur c s s' t h hs, blockVals_spur c s s' t h hs, unlockBAll_spur c s s' t h hs, condRun_spur c s s' t h hs, waitRun_spur c s s' t h hs, accCreate_spur c s s' t h hs, accLoop_spur c s s' t h hs, accDone_spur c s s' t h hs⟩
+
+theorem inv_step (c : Cfg) (hn : 0 < c.n) (s s' : State) (t : Nat) (h : Inv c s) (hs : step? c s t = some s') : Inv c s' := by
+  cases t with
+  | zero => exact inv_stepC c hn s s' h hs
+  | succ w =>
+    simp only [step?] at hs
+    split at hs
+    · exact inv_stepW c s s' w (by assumption) h hs
+    · cases hs
+
 end PsV.Sync
